@@ -232,12 +232,115 @@ static int foreignMode(int argc, char** argv) {
 	_exit(0);
 }
 
+// ---- store mode (C17: values written are the values read back) ---------------------------
+// input:  R\t<read expr>...   then per program   P\t<loc>\t<expr>[\t<loc>\t<expr>]
+// output: S <n> <outcome of each assignment: ok|ERR|EXC, comma separated> <value of each read expr | ERR, comma separated>
+//         C <n> <signal>      the program crashed the process
+static const char* STORE_DOC =
+    "<scxml xmlns=\"http://www.w3.org/2005/07/scxml\" version=\"1.0\" datamodel=\"promela\">"
+    "<datamodel><data id=\"a\" type=\"int\" expr=\"3\"/><data id=\"w\" type=\"int\"/>"
+    "<data id=\"arr\" type=\"int[3]\">[4,0,6]</data><data id=\"z\" type=\"int[4]\"/></datamodel>"
+    "<state id=\"s\"/></scxml>";
+
+static std::vector<std::string> splitTabs(const std::string& line) {
+	std::vector<std::string> out;
+	size_t p = 0;
+	while (true) {
+		size_t q = line.find('\t', p);
+		out.push_back(line.substr(p, q == std::string::npos ? std::string::npos : q - p));
+		if (q == std::string::npos) break;
+		p = q + 1;
+	}
+	return out;
+}
+
+static void storeChunk(const std::vector<std::vector<std::string> >& progs, const std::vector<std::string>& reads, size_t from, size_t to, int wfd) {
+	setenv("USCXML_NOCACHE_FILES", "YES", 1);
+	FILE* out = fdopen(wfd, "w");
+	FILE* devnull = fopen("/dev/null", "w");
+	if (devnull) { dup2(fileno(devnull), 1); dup2(fileno(devnull), 2); }
+	std::list<uscxml::Interpreter> keep;     // never destroyed (tear-down is not this check's subject)
+	for (size_t n = from; n < to; n++) {
+		fprintf(out, "B %zu\n", n);
+		fflush(out);
+		keep.push_back(uscxml::Interpreter::fromXML(STORE_DOC, "file:///verif/store.scxml"));
+		uscxml::Interpreter& interp = keep.back();
+		for (int i = 0; i < 4; i++) interp.step(0);
+		uscxml::DataModel dm = interp.getActionLanguage()->dataModel;
+		std::map<std::string, std::string> noattr;
+		std::string oks, vals;
+		for (size_t k = 1; k + 1 < progs[n].size(); k += 2) {
+			std::string o = "ok";
+			try { dm.assign(progs[n][k], uscxml::Data(progs[n][k + 1], uscxml::Data::INTERPRETED), noattr); }
+			catch (uscxml::Event e) { o = "ERR"; } catch (...) { o = "EXC"; }
+			oks += (oks.size() ? "," : "") + o;
+		}
+		for (size_t k = 0; k < reads.size(); k++) {
+			std::string v;
+			try { uscxml::Data r = dm.evalAsData(reads[k]); v = r.atom.size() ? r.atom : "EMPTY"; }
+			catch (uscxml::Event e) { v = "ERR"; } catch (...) { v = "EXC"; }
+			vals += (vals.size() ? "," : "") + v;
+		}
+		fprintf(out, "S %zu %s %s\n", n, oks.c_str(), vals.c_str());
+		fflush(out);
+		if (keep.size() > 50) { /* bound memory: leak deliberately, but in pieces */ keep.clear(); }
+	}
+	fflush(out);
+	_exit(0);
+}
+
+static int storeMode(const char* file) {
+	std::ifstream in(file);
+	if (!in) { perror("open"); return 2; }
+	std::vector<std::vector<std::string> > progs;
+	std::vector<std::string> reads;
+	std::string line;
+	while (std::getline(in, line)) {
+		std::vector<std::string> f = splitTabs(line);
+		if (f.size() && f[0] == "R") reads.assign(f.begin() + 1, f.end());
+		else if (f.size() && f[0] == "P") progs.push_back(f);
+	}
+	size_t from = 0;
+	while (from < progs.size()) {
+		size_t to = std::min(progs.size(), from + 100);
+		int pfd[2];
+		if (pipe(pfd)) return 2;
+		pid_t pid = fork();
+		if (pid == 0) { close(pfd[0]); alarm(120); storeChunk(progs, reads, from, to, pfd[1]); }
+		close(pfd[1]);
+		std::string buf;
+		char tmp[65536];
+		ssize_t k;
+		while ((k = read(pfd[0], tmp, sizeof tmp)) > 0) buf.append(tmp, k);
+		close(pfd[0]);
+		int status = 0;
+		waitpid(pid, &status, 0);
+		size_t last = from;
+		bool begun = false;
+		std::istringstream is(buf);
+		while (std::getline(is, line)) {
+			if (line[0] == 'B') { last = strtoul(line.c_str() + 2, NULL, 10); begun = true; }
+			else if (line[0] == 'S') { printf("%s\n", line.c_str()); begun = false; }
+		}
+		if (WIFSIGNALED(status) || (WIFEXITED(status) && WEXITSTATUS(status) != 0)) {
+			printf("C %zu %d\n", last, WIFSIGNALED(status) ? WTERMSIG(status) : -WEXITSTATUS(status));
+			from = last + 1;
+		} else {
+			from = to;
+		}
+		(void)begun;
+	}
+	printf("DONE %zu\n", progs.size());
+	return 0;
+}
+
 int main(int argc, char** argv) {
 	if (argc < 3) { fprintf(stderr, "usage: fn_replay <mode> <file>\n"); return 2; }
 	std::string mode = argv[1];
 	if (mode == "promela") return promelaMode(argv[2]);
 	if (mode == "foreign") return foreignMode(argc, argv);
 	if (mode == "lua") return luaMode(argv[2]);
+	if (mode == "store") return storeMode(argv[2]);
 	std::ifstream in(argv[2]);
 	if (!in) { perror("open"); return 2; }
 	long n = 0, diffs = 0;
